@@ -1,6 +1,6 @@
 """Native side of the replay gate: run the real parser (replay binary built from /repo's working tree) on concrete
 inputs, compare with what engine M predicted, and re-evaluate the property on the native observation."""
-import json, subprocess
+import json, os, subprocess
 from . import build
 from .props.common import py_head_end, TCHAR, URICH, REASONCH, VALUECH, WS, entry_name
 
@@ -13,12 +13,15 @@ def profile_for(variant, release=False):
     return base
 
 
-def run_native(items, profile='dev'):
-    """items: list of (entry, flags, cap, bufhex) -> list of dict {'impl':..., 'ref':...}"""
+def run_native(items, profile='dev', env=None):
+    """items: list of (entry, flags, cap, bufhex) -> list of dict {'impl':..., 'ref':...}; env: extra environment variables of the
+    replay process (the environment is an input of std builds: an engine counterexample may name a variable that has to be set)"""
     if not items: return []
     binp = build.get_replay_bin(profile)
     inp = ''.join(f'{e} {f} {c} {h}\n' for e, f, c, h in items)
-    p = subprocess.run([binp], input=inp.encode(), stdout=subprocess.PIPE, stderr=subprocess.PIPE, timeout=600)
+    penv = None
+    if env: penv = dict(os.environ); penv.update(env)
+    p = subprocess.run([binp], input=inp.encode(), stdout=subprocess.PIPE, stderr=subprocess.PIPE, timeout=600, env=penv)
     lines = p.stdout.decode().strip().split('\n')
     out = []
     for ln in lines:
@@ -92,7 +95,7 @@ def native_ref_mismatch(nat, kind, only_err=False):
         if k in r and i.get(k) != r.get(k):
             # reason "" from a static vs empty slice in buffer are both 'empty'
             out.append(f'{k}: {i.get(k)} vs reference {r.get(k)}')
-    if i['status'] == 'C':
+    if i['status'] == 'C' and kind != 'chunk':
         ih = [h for h in i.get('headers', [])]
         if ih != r['headers']: out.append(f"headers {ih} vs reference {r['headers']}")
     return out
@@ -303,7 +306,7 @@ def rel_gate(v):
         bits = 0
         for i, f in enumerate(fl):
             if f is True: bits |= 1 << i
-        entry = 'time_' + en(kind2, 'cfg')
+        entry = ('timecap_' if len(spec) > 4 else 'time_') + en(kind2, 'cfg')
         sizes = (64, 1024)
         for prof in [profile_for(variant, True)]:
             items = []
